@@ -89,7 +89,11 @@ func Run(sc *Script) []trace.Event {
 	for t, n := range cfg.NParts {
 		nparts[t] = n
 	}
-	r.rec.Emit(trace.Event{"ev": "cfg", "id": sc.ID, "batchSize": cfg.BatchSize, "batchBytes": cfg.BatchBytes,
+	effBytes := cfg.BatchBytes
+	if effBytes == 0 {
+		effBytes = 1048576 // the Writer's documented default
+	}
+	r.rec.Emit(trace.Event{"ev": "cfg", "id": sc.ID, "batchSize": cfg.BatchSize, "batchBytes": effBytes,
 		"maxAttempts": cfg.MaxAttempts, "acked": cfg.Acked, "async": cfg.Async, "topic": cfg.Topic, "nparts": nparts,
 		"batchTimeoutMs": int(bt / time.Millisecond)})
 
